@@ -28,7 +28,7 @@ PROPS = {
                       "regular file, pipes as unseekable, /sys-style files as unmappable), io::Error::kind and ErrorKind's "
                       "PartialEq; termination is NOT claimed (exec_allows_no_decreases_clause: an endless reader is "
                       "legal); domain: the source plus what the hasher already absorbed is shorter than 2^64 bytes",
-        "units": {"quick": [v("spec_lemmas"), v("io"), v("hasher"), v("xof"), v("tree")], "thorough": [v("io", "C", vacuity=False)]},
+        "units": {"quick": [v("spec_lemmas"), v("io"), v("hasher"), v("xof"), v("tree")], "thorough": [v("io", "C", vacuity=False), s("C11")]},
         "cone": [r"crate::io::", r"crate::Hasher::update_reader", r"crate::Hasher::update_mmap",
                  r"crate::Hasher::Write__", r"vf_update_reader_fresh_file", r"\(contract\)"],
         "explanation": "Reader model (prelude/readermodel.rs): trait VfRead with ghost observables log() (all bytes "
